@@ -92,7 +92,7 @@ theorem exec_texts (c : List Level) (D : Dispatch) : ∀ f env (kids : List Node
       simp only [List.all_cons, Bool.and_eq_true] at hk
       cases n with
       | text k =>
-        simp only [exec] at h
+        rw [exec_cons] at h
         obtain ⟨x, y, hx, hy, ho⟩ := seq_ok h
         simp only [step, Except.ok.injEq] at hx
         subst hx
@@ -253,7 +253,7 @@ theorem exec_plain (c : List Level) (hp : PlainChain c) :
     | nil => simp only [exec, Except.ok.injEq] at h; simp [expandNodes, ← h]
     | cons n rest =>
       simp only [List.all_cons, Bool.and_eq_true] at hplain
-      simp only [exec] at h
+      rw [exec_cons] at h
       obtain ⟨x, y, hx, hy, ho⟩ := seq_ok h
       have hdr : ∀ b ∈ mainBlocksL rest, noDefNamed c b = true :=
         fun b hb => hdefs b (by simp [mainBlocksL, hb])
